@@ -104,6 +104,10 @@ def run_case(case):
     unit_keys, nontrivial = [], []
     cover = {"forms": {}, "outcomes": {}}
     files = {"modules/mymod.py": "VALUE = 41\ndef f():\n    return VALUE + 1\n", "modules/stubstore.py": "def f():\n    return 77\n", "modules/pkg/rel1.py": "try:\n    from .subprocess import check_output\n    R = 'imported'\nexcept ImportError as exc:\n    R = type(exc).__name__\n", "modules/pkg/rel3.py": "try:\n    exec('from .shutil import rmtree as rm')\n    R = 'imported'\nexcept ImportError as exc:\n    R = type(exc).__name__\n", "modules/pkg/deep/__init__.py": "from . import rel2\n", "modules/pkg/deep/rel2.py": "try:\n    from ..socket import *\n    R = 'imported'\nexcept ImportError as exc:\n    R = type(exc).__name__\n", "modules/json.py": "SHADOW = 'pyscript json module'\n", "modules/pkg/__init__.py": "from .sub import SUBV\nfrom . import rel1, rel3\nfrom .deep import rel2\nTOP = 1\n", "modules/pkg/sub.py": "SUBV = 7\n", "apps/myapp/__init__.py": "from . import helper\nX = helper.H\n", "apps/myapp/helper.py": "H = 5\n"}
+    files["c17trig.py"] = (
+        "@event_trigger('c17ev', \"print('LEAK-STDOUT') is None\")\ndef by_filter(**kw):\n    vf.rec('trigrun', which='filter')\n\n"
+        "@event_trigger('c17ev2')\n@state_active(\"open('/dev/null') is not None\")\ndef by_active(**kw):\n    vf.rec('trigrun', which='active')\n"
+    )
     config = {"allow_all_imports": bool(case.get("allow_all", False)), "apps": {"myapp": {}}}
     if part in ("allow_all",):
         config["allow_all_imports"] = True
@@ -283,6 +287,21 @@ def run_case(case):
                 nontrivial.append(src)
                 if ps["exc"] != "NameError":
                     viol.append({"mech": "builtins_namespace_leaked_into_script_globals", "msg": f"`{src}` gave {ps['exc']} r={str(ps['globals'].get('r'))[:60]}", "replay_case": dict(case)})
+            # names evaluated inside trigger / guard expression strings go through the same exclusion: neither the real print
+            # (it would write to stdout) nor open() is reachable there
+            import contextlib
+            import io
+
+            buf = io.StringIO()
+            n0r = len(w.rec)
+            with contextlib.redirect_stdout(buf):
+                w.fire("c17ev", {})
+                w.fire("c17ev2", {})
+                await w.settle()
+            obs["builtins_checked"] += 2
+            ran = [r["which"] for r in w.rec[n0r:] if r["tag"] == "trigrun"]
+            if "LEAK-STDOUT" in buf.getvalue() or ran:
+                viol.append({"mech": "excluded_builtin_reachable", "msg": f"expression strings of triggers: stdout got {buf.getvalue()!r}, functions that ran although their expression must fail: {ran}"})
             ps = await interp.run_pyscript("import builtins as B")
             if ps["exc"] != "ModuleNotFoundError":
                 viol.append({"mech": "disallowed_import_succeeded", "msg": "import builtins succeeded"})
